@@ -1,44 +1,160 @@
 package main
 
 import (
+	"flag"
 	"fmt"
 	"os"
-
-	"golang.org/x/tools/go/packages"
-	"golang.org/x/tools/go/ssa"
-	"golang.org/x/tools/go/ssa/ssautil"
+	"sort"
+	"strings"
+	"time"
 )
 
 func main() {
-	cfg := &packages.Config{Mode: packages.LoadAllSyntax, Dir: "/repo", BuildFlags: []string{"-tags=verif"}, Env: append(os.Environ(), "GOFLAGS=-mod=mod", "GOPROXY=off", "GOSUMDB=off", "GOTOOLCHAIN=local")}
-	pkgs, err := packages.Load(cfg, "./internal/...")
-	if err != nil {
-		panic(err)
+	if len(os.Args) < 2 {
+		fmt.Fprintln(os.Stderr, "usage: govc <check|unit|list|ssa> ...")
+		os.Exit(2)
 	}
-	prog, spkgs := ssautil.AllPackages(pkgs, ssa.InstantiateGenerics)
-	prog.Build()
-	for f := range ssautil.AllFunctions(prog) {
-		if f.Pkg != nil && f.Pkg.Pkg.Name() == os.Args[1] && len(os.Args) >= 3 && f.Name() == os.Args[2] {
-			f.WriteTo(os.Stdout)
-		}
+	cmd := os.Args[1]
+	fs := flag.NewFlagSet(cmd, flag.ExitOnError)
+	repo := fs.String("repo", "/repo", "repository root")
+	tier := fs.String("tier", "quick", "quick|thorough")
+	verif := fs.String("verif", "/verif", "verif root")
+	verbose := fs.Bool("v", false, "verbose")
+	keep := fs.Bool("keep", false, "keep SMT files")
+	var pos []string
+	args := os.Args[2:]
+	for len(args) > 0 && !strings.HasPrefix(args[0], "-") {
+		pos = append(pos, args[0])
+		args = args[1:]
 	}
-	return
-	for _, p := range spkgs {
-		if p == nil {
-			continue
+	fs.Parse(args)
+	pos = append(pos, fs.Args()...)
+	switch cmd {
+	case "ssa":
+		p, err := loadProgram(*repo)
+		if err != nil {
+			fmt.Fprintln(os.Stderr, err)
+			os.Exit(2)
 		}
-		if p.Pkg.Name() == os.Args[1] {
-			for _, m := range p.Members {
-				if f, ok := m.(*ssa.Function); ok && (len(os.Args) < 3 || f.Name() == os.Args[2]) {
-					f.WriteTo(os.Stdout)
+		for k, fn := range p.funcs {
+			if len(pos) > 0 && strings.Contains(k, pos[0]) {
+				fn.WriteTo(os.Stdout)
+				fi := analyze(fn)
+				for _, li := range fi.LoopOrd {
+					fmt.Printf("# loop %d header block %d (%d blocks)\n", li.Ord, li.Header.Index, len(li.Body))
 				}
 			}
-			if len(os.Args) >= 4 {
-				t := p.Type(os.Args[2])
-				ms := prog.MethodSets.MethodSet(t.Type())
-				_ = ms
+		}
+	case "list":
+		p, err := loadProgram(*repo)
+		if err != nil {
+			fmt.Fprintln(os.Stderr, err)
+			os.Exit(2)
+		}
+		for _, k := range p.cs.Order {
+			c := p.contracts[k]
+			fmt.Printf("%-50s props=%v trusted=%v inline=%v\n", k, c.Props, c.Trusted, c.Inline)
+		}
+		for _, e := range p.cs.Errors {
+			fmt.Println("ERROR", e)
+		}
+	case "unit":
+		os.Exit(runUnits(*repo, *verif, pos, *tier, *verbose, *keep))
+	case "check":
+		if len(pos) != 1 {
+			fmt.Fprintln(os.Stderr, "usage: govc check <property-id> [--tier quick|thorough]")
+			os.Exit(2)
+		}
+		os.Exit(runCheck(*repo, *verif, pos[0], *tier, *verbose, *keep))
+	default:
+		fmt.Fprintln(os.Stderr, "unknown command", cmd)
+		os.Exit(2)
+	}
+}
+
+func solverCfg(verif, tier, tag string) *SolverCfg {
+	cfg := &SolverCfg{FirstTimeout: 3 * time.Second, FullTimeout: 20 * time.Second, Workers: 16,
+		WorkDir: fmt.Sprintf("%s/.work/%s-%d", verif, tag, os.Getpid())}
+	if tier == "thorough" {
+		cfg.FullTimeout = 60 * time.Second
+		cfg.Confirm = true
+	}
+	return cfg
+}
+
+// runUnits verifies the named units (substring match) and prints a report (developer command)
+func runUnits(repo, verif string, names []string, tier string, verbose, keep bool) int {
+	t0 := time.Now()
+	p, err := loadProgram(repo)
+	if err != nil {
+		fmt.Fprintln(os.Stderr, err)
+		return 2
+	}
+	for _, e := range p.cs.Errors {
+		fmt.Println("CONTRACT ERROR", e)
+	}
+	fmt.Printf("loaded in %.1fs\n", time.Since(t0).Seconds())
+	p.loadSpecLib(verif)
+	var units []*Unit
+	for _, k := range p.cs.Order {
+		match := len(names) == 0
+		for _, n := range names {
+			if strings.Contains(k, n) {
+				match = true
+			}
+		}
+		if !match {
+			continue
+		}
+		ct := p.contracts[k]
+		if ct.Inline && len(ct.Ensures) == 0 {
+			continue
+		}
+		u := p.verifyUnit(ct)
+		if u.Err != "" {
+			fmt.Printf("UNIT %s: ERROR %s\n", u.Name, u.Err)
+		}
+		units = append(units, u)
+	}
+	cfg := solverCfg(verif, tier, "unit")
+	all := discharge(cfg, units)
+	bad := 0
+	sort.Slice(all, func(i, j int) bool { return all[i].Name < all[j].Name })
+	for _, o := range all {
+		if !o.ok() {
+			bad++
+		}
+		if verbose || !o.ok() {
+			fmt.Printf("%-8s %-10s %6.2fs %7dB %s  (%s)\n", o.Status, o.Solver, o.Secs, o.SMTBytes, o.Name, o.Pos)
+			if !o.ok() && verbose {
+				fmt.Println(indent(truncate(o.Output, 3000)))
 			}
 		}
 	}
-	fmt.Println("done")
+	for _, u := range units {
+		for _, t := range u.Trusted {
+			if verbose {
+				fmt.Printf("TRUSTED [%s] %s\n", u.Name, t)
+			}
+		}
+	}
+	fmt.Printf("%d obligations, %d not discharged, %.1fs\n", len(all), bad, time.Since(t0).Seconds())
+	if !keep && bad == 0 {
+		os.RemoveAll(cfg.WorkDir)
+	} else {
+		fmt.Println("SMT files kept in", cfg.WorkDir)
+	}
+	if bad > 0 {
+		return 1
+	}
+	return 0
+}
+
+func indent(s string) string { return "    " + strings.ReplaceAll(s, "\n", "\n    ") }
+
+func truncate(s string, n int) string {
+	if len(s) > n {
+		return s[:n] + "..."
+	}
+	return s
 }
